@@ -51,7 +51,7 @@ PROPS = {
     },
     "C11": {
         "level": "proof",
-        "units": ["cproof", "sproof", "cor_cproof", "cor_sproof", "lemmas_schnorr", "lemmas_pedersen", "lemmas_ps"],
+        "units": ["cproof", "sproof", "cor_cproof", "cor_sproof", "lemmas_schnorr", "lemmas_pedersen", "lemmas_ps"], "kani": ["g1_projective_codec_validates"],
         "assumptions": [PER_INST, "challenge != 0 for the commitment-perturbation clause"],
         "trusted_base": CRYPTO_AXIOMS,
     },
@@ -67,7 +67,7 @@ PROPS = {
     },
     "C13": {
         "level": "proof",
-        "units": ["range", "sproof", "lemmas_range_ledger", "lemmas_range_complete", "lemmas_range_soundness", "cor_merchant"],
+        "units": ["range", "sproof", "lemmas_range_ledger", "lemmas_range_complete", "lemmas_range_soundness", "cor_merchant", "ps"],
         "kani": ["range_digits_exact"],
         "assumptions": [
             PER_INST,
@@ -161,7 +161,7 @@ PROPS = {
     "C15": {
         "level": "proof",
         "units": ["za_nonce_revlock", "validators"],
-        "kani": ["balance_decode_invariant", "g1_codec_validates", "g2_codec_validates", "scalar_codec_validates", "channel_id_from_str_exact", "array_visitor_total_n1", "array_visitor_total_n5", "boxed_array_visitor_total_n1"],
+        "kani": ["balance_decode_invariant", "g1_codec_validates", "g2_codec_validates", "scalar_codec_validates", "channel_id_from_str_exact", "array_visitor_total_n1", "array_visitor_total_n5", "boxed_array_visitor_total_n1", "g1_projective_codec_validates", "g2_projective_codec_validates", "amount_decode_total"],
         "scans": ["serde_routing", "nonce_sites", "revocation_pair_sites"],
         "assumptions": [
             "bls12_381 decoders accept canonical, on-curve, in-subgroup encodings only (documented contract of from_compressed/from_bytes)",
@@ -171,7 +171,7 @@ PROPS = {
     },
     "C16": {
         "level": "proof",
-        "kani": ["array_visitor_total_n1", "array_visitor_total_n5", "boxed_array_visitor_total_n1", "vec_visitor_bounded_allocation", "g1_codec_short_input", "channel_id_from_str_exact", "big_boxed_array_total_n2"],
+        "kani": ["array_visitor_total_n1", "array_visitor_total_n5", "boxed_array_visitor_total_n1", "vec_visitor_bounded_allocation", "g1_codec_short_input", "channel_id_from_str_exact", "big_boxed_array_total_n2", "amount_decode_total"],
         "scans": ["no_unsafe"],
         "assumptions": [
             "code generated by serde_derive and bincode's own reader are not under contract (macro-generated / dependency)",
@@ -182,20 +182,20 @@ PROPS = {
     "C17": {
         "level": "proof",
         "units": ["za_lib", "za_states", "lemmas_range_ledger"],
-        "kani": ["balance_try_new_exact", "amount_constructors_exact", "balance_apply_exact", "balance_try_add_exact", "amount_to_scalar_total", "balance_to_scalar_total"],
+        "kani": ["balance_try_new_exact", "amount_constructors_exact", "balance_apply_exact", "balance_try_add_exact", "amount_to_scalar_total", "balance_to_scalar_total", "amount_decode_total"],
         "assumptions": ["Scalar::from(u64) == iota(x) (assumed contract of bls12_381)"],
         "trusted_base": CRYPTO_AXIOMS,
     },
     "C18": {
         "level": "proof",
-        "units": ["za_nonce_revlock", "za_states", "cor_customer", "lemmas_ps", "pk_bytes", "za_chanid", "za_merchant", "transcripts"],
+        "units": ["za_nonce_revlock", "za_states", "cor_customer", "lemmas_ps", "pk_bytes", "za_chanid", "za_merchant", "transcripts", "ps"],
         "scans": ["nonce_sites"],
         "assumptions": ["SHA3 collision resistance for 'the channel id changes' (the hashed string is PROVED to be the five inputs in order: slice of ChannelId::new + PublicKey::to_bytes; the five-chunk list determines each input given the fixed widths of the first three, flatten-injectivity is not mechanised); y_2 != 0 from key well-formedness (C19)", "the last statement of ChannelId::new (digest -> [u8; 32]) and ChannelId::to_scalar are contract-only (byte slicing); to_scalar has a bounded stand-in (thorough tier)"],
         "trusted_base": CRYPTO_AXIOMS,
     },
     "C20": {
         "level": "other",
-        "units": ["za_customer", "za_nonce_revlock"],
+        "units": ["za_customer", "za_nonce_revlock"], "kani": ["balance_decode_invariant", "amount_decode_total"],
         "scans": ["serde_routing", "customer_state_shapes"],
         "explanation": "modular argument: restored value == original value field by field (validators return the same fields for every constructed value: Verus contracts; shapes of the five stage structs carry both derives and no skip/default/flatten/rename: syn scan) ==> identical behaviour in safe Rust without interior mutability; the serde-derive/bincode round trip on mirrored shapes is an assumption",
         "assumptions": ["serde-derive/bincode round trip on mirrored shapes; codec pair to_compressed/from_compressed inverse"],
